@@ -16,7 +16,7 @@ func init() {
 		NotDecided:  "the hole-refill walks in pipe.DoMultiCache / doCacheMGet (which positions are holes is data dependent) - the single-connection heart of the property; duplicates; the cache's answers."}
 	Registry["C20"] = RuleDef{Module: ".", Run: runC20,
 		Technique:   "same-index correspondence rule (as C11) on the cluster DoMulti tables, loop-bound identification for the transaction re-queue, tuple-agreement rule for pickMulti, slice-origin rule for lifetime recovery",
-		Explanation: "Decides structural necessary conditions: (R20i) index-map rules of C11 applied to _pickMulti, doresultfn, doretry and the ASKING interleaver: each command is filed with its own original index, each reply lands at the index filed for its position, the triple given to doresultfn is made of sibling fields of one batch and the replies of exactly that command table; askingMulti returns the replies of the non-ASKING positions in order; (R20a) when a redirected command lies in a MULTI..EXEC block, every member from the MULTI position to the EXEC position (the two positions tested by isMulti/isExec in the dominating guard) is re-queued, in order, to one and the same batch object with its carried original index; (R20b) lifetime recovery re-sends from the MULTI position when the expired reply lies inside a block, otherwise from the expired position; (R20c) the transaction flag and the grouping returned by pickMulti stem from the same _pickMulti call, and a batch containing slot-less members panics on mixed slots.",
+		Explanation: "Decides structural necessary conditions: (R20i) index-map rules of C11 applied to _pickMulti, doresultfn, doretry and the ASKING interleaver: each command is filed with its own original index, each reply lands at the index filed for its position, the triple given to doresultfn is made of sibling fields of one batch and the replies of exactly that command table; askingMulti returns the replies of the non-ASKING positions in order; (R20a) when a redirected command lies in a MULTI..EXEC block, every member from the MULTI position to the EXEC position (the two positions tested by isMulti/isExec in the dominating guard) is re-queued, in order, to one and the same batch object with its carried original index; (R20b) lifetime recovery re-sends from the MULTI position when the expired reply lies inside a block, otherwise from the expired position; (R20d) ASK recovery after a connection expiry re-sends from the start of the interrupted ASKING group, and the replies of every executed pipeline are always handed to the result function (placed and re-queued) - no path from the execution skips it; (R20c) the transaction flag and the grouping returned by pickMulti stem from the same _pickMulti call, and a batch containing slot-less members panics on mixed slots.",
 		NotDecided:  "order within one node under repeated redirects, interaction of partial redirects with retries, the server's behaviour."}
 }
 
@@ -253,6 +253,31 @@ func tripleRule(r *Report, rule string, caller *ssa.Function, callee string, exe
 					ok, why = false, "the replies are not the result of executing this very command table ("+fc+")"
 				} else {
 					why = fi + "/" + fc + " of one batch with the replies of executing " + fc
+				}
+				// once the table was executed its replies are always processed (placed and re-queued):
+				// every path from the execution reaches this call
+				for _, es := range Sites(caller, func(in ssa.Instruction) bool {
+					c, isc := in.(*ssa.Call)
+					if !isc {
+						return false
+					}
+					for _, name := range exec[fc] {
+						if CalleeName(c) == name {
+							for _, ca := range CallArgs(c) {
+								if _, f2, b2, ok2 := FieldRef(stripLoad(ca)); ok2 && f2 == fc && Same(b2, bc) {
+									return true
+								}
+							}
+						}
+					}
+					return false
+				}) {
+					if !Dominates(es, s) {
+						continue // the recovery re-send inside the lifetime loop
+					}
+					if mp, _ := MustPass(es, func(in ssa.Instruction) bool { return in == s.Instr }); !mp {
+						ok, why = false, "the replies of an executed pipeline can be dropped: a path from the execution skips the result function"
+					}
 				}
 			}
 		}
@@ -724,6 +749,67 @@ func runC20(r *Report) {
 			r.ObSite("R20a", a.site, "every-member-requeued:"+a.field, always, "no member of the block is skipped")
 		}
 		r.Anchor("R20a", "transaction re-queue appends (2 arms)", n == 2)
+	}
+	// R20d: the ASK recovery re-sends whole groups: the re-send starts at the first command of the
+	// group that contains the expired reply (ASKING and MULTI are connection state of the new connection)
+	if fn := r.FnAnchor("R20d", P+"askingMultiCache"); fn != nil {
+		n := 0
+		for _, b := range fn.Blocks {
+			for _, in := range b.Instrs {
+				sl, ok := in.(*ssa.Slice)
+				if !ok || sl.Low == nil || sl.High != nil || !strings.HasSuffix(shortType(sl.Type()), ".Completed") {
+					continue
+				}
+				if _, isConst := sl.Low.(*ssa.Const); isConst {
+					continue
+				}
+				n++
+				good := false
+				if bo, isb := sl.Low.(*ssa.BinOp); isb && bo.Op == token.SUB {
+					if ph, isphi := bo.X.(*ssa.Phi); isphi && IsLoopHeader(ph.Block()) {
+						for i, e := range ph.Edges {
+							if !ph.Block().Dominates(ph.Block().Preds[i]) && e == bo.Y {
+								good = true // i starts at offset and the re-send starts at i - offset
+							}
+						}
+					}
+				}
+				r.ObSite("R20d", SiteOf(in), "asking-group-resent-whole", good, "after a connection expiry the re-send starts at the first command of the interrupted (OPT-IN, ASKING, ...) group: position - offset for a walk that starts at offset")
+			}
+		}
+		r.Anchor("R20d", "askingMultiCache: recovery slice", n == 1)
+	}
+	if fn := r.FnAnchor("R20d", P+"askingMulti"); fn != nil {
+		n := 0
+		for _, b := range fn.Blocks {
+			for _, in := range b.Instrs {
+				sl, ok := in.(*ssa.Slice)
+				if !ok || sl.Low == nil || sl.High != nil || !strings.HasSuffix(shortType(sl.Type()), ".Completed") {
+					continue
+				}
+				if _, isConst := sl.Low.(*ssa.Const); isConst {
+					continue
+				}
+				n++
+				// the start is the recorded position of the last ASKING marker: a phi fed by the loop
+				// index under `commands[i] == AskingCmd`
+				good := false
+				if ph, isphi := sl.Low.(*ssa.Phi); isphi {
+					for i, e := range ph.Edges {
+						if !isRangeIndexAny(e) {
+							continue
+						}
+						for _, g := range append(DomGuards(ph.Block().Preds[i]), edgeGuards(ph.Block().Preds[i], ph.Block())...) {
+							if strings.Contains(DescDeep(g.Cond), "AskingCmd") && g.Pol {
+								good = true
+							}
+						}
+					}
+				}
+				r.ObSite("R20d", SiteOf(in), "asking-pair-resent-whole", good, "after a connection expiry the re-send starts at the ASKING marker that precedes the expired command")
+			}
+		}
+		r.Anchor("R20d", "askingMulti: recovery slice", n == 1)
 	}
 	// R20b lifetime recovery
 	if fn := r.FnAnchor("R20b", P+"doretry"); fn != nil {
